@@ -7,6 +7,11 @@ From Mpv Require Import GenObserve OrderHist.
 Import ListNotations.
 Open Scope nat_scope.
 
+Fixpoint follows_str (a b : string) (l : list string) : bool :=
+  match l with
+  | x :: ((y :: _) as r) => (String.eqb x a && String.eqb y b) || follows_str a b r
+  | _ => false
+  end.
 (* ---- facts ---- *)
 Definition delayed_saves_and_restores : bool :=
   match delayed_enter_body, delayed_exit_body with
@@ -32,6 +37,9 @@ Definition terminate_clears_everything : bool :=
 Definition stop_handler_threads_joins_all_four : bool :=
   has "  self._results_handler_thread.join()" stop_handler_threads_body && has "  self._restart_handler_thread.join()" stop_handler_threads_body &&
   has "  self._timeout_handler_thread.join()" stop_handler_threads_body && has "  self._unexpected_death_handler_thread.join()" stop_handler_threads_body.
+(* stop_and_join(keep_alive=False) -- the explicit call, whatever the pool's own keep_alive setting -- stops the handler threads *)
+Definition stop_and_join_obeys_its_argument : bool :=
+  follows_str "  if not keep_alive:" "    self._stop_handler_threads()" stop_and_join_body_obs.
 Definition map_call_terminates_on_any_exception : bool :=
   has "except BaseException:" imap_unordered_body_obs && has "  self.terminate()" imap_unordered_body_obs &&
   has "    except BaseException:" imap_unordered_body_obs && has "      self.terminate()" imap_unordered_body_obs &&
@@ -109,7 +117,7 @@ Definition lstep (l : ledger) (o : pop) : ledger :=
   | OStart n => if lstarted l then l else mkL n 4 true
   | OTerminate | OExit =>
       if terminate_clears_everything && stop_handler_threads_joins_all_four then mkL 0 0 false else l
-  | OStopJoin ka => if ka then l else if stop_handler_threads_joins_all_four then mkL 0 0 false else l
+  | OStopJoin ka => if ka then l else if stop_handler_threads_joins_all_four && stop_and_join_obeys_its_argument then mkL 0 0 false else l
   | OCallFails | OCallInterrupted =>
       (* a map call that raises -- a user exception, a timeout, a dead worker, KeyboardInterrupt at any point -- goes
          through terminate() before the exception leaves the call *)
